@@ -30,6 +30,8 @@ def seeded():
             patch = os.path.join(d, n, 'patch.diff')
             if os.path.exists(meta) and os.path.exists(patch):
                 m = json.load(open(meta))
+                if m.get('property') in (None, 'none') or m.get('neutralised_by'):
+                    continue     # benign controls; changes that a later repair of /repo made harmless
                 out.append(('seeded:' + n, m['property'], patch))
     return out
 
